@@ -110,6 +110,17 @@ def run(ctx):
     kvn = C.build_harness("noomp")
     rng = ctx.rng
     ins = inputs(ctx, 10 if ctx.quick else 60, not ctx.quick)
+    # a large set of related fragments of differing lengths: many sequences near a k-means boundary, so that a perturbed
+    # anchor distance changes the guide tree (distance matrix + bisecting k-means regions under real contention)
+    for rep in range(1 if ctx.quick else 4):
+        fam = gen.family(rng, "protein", 40, 160, sub=0.25, indel=0.05, spice=False)
+        frags = []
+        for k in range(1200 if ctx.quick else 1500):
+            _, s = fam[rng.randrange(len(fam))]
+            L = rng.randint(40, 120)
+            a = rng.randint(0, max(0, len(s) - L))
+            frags.append(("f%d" % k, s[a:a + L] if len(s) >= L else s))
+        ins.append((frags, 5))
     fails = []
     for recs, t in ins:
         ref = Case(recs, t, threads=1, fmt="fasta")
@@ -120,7 +131,14 @@ def run(ctx):
             continue
         variants = []
         ths = [1, 2, 3, 4, 7, 8, 16, 33, 64] if not ctx.quick else [1, 2, 5, 16, 64]
+        big = len(recs) >= 1000
+        if big:
+            ths = [8, 16, 64] if ctx.quick else [4, 8, 16, 32, 64]
         for th in ths:
+            if big:
+                for rep in range(2 if ctx.quick else 4):
+                    variants.append((kvp, Case(recs, t, threads=th, fmt="fasta", evlog=False, jitter=0, tag="threads=%d repeat %d (large fragment set)" % (th, rep))))
+                continue
             variants.append((kvh if rng.random() < 0.5 else kvp, Case(recs, t, threads=th, fmt="fasta", evlog=True, jitter=0, tag="threads=%d" % th)))
             variants.append((kvp, Case(recs, t, threads=th, fmt="fasta", evlog=True, jitter=rng.randint(1, 10 ** 6), tag="threads=%d jitter" % th)))
         if not ctx.quick:
@@ -129,7 +147,7 @@ def run(ctx):
         for exe in (kvh, kvp):
             cs = [c for e, c in variants if e is exe]
             # each case alone in its process group would serialise everything; a few in parallel also oversubscribes the cores
-            sysrun.run_cases(exe, cs, par=4)
+            sysrun.run_cases(exe, cs, par=(2 if big else 4))
         for exe, c in variants:
             ctx.evaluations += 1
             if c.crashed or c.rc != 0:
@@ -137,6 +155,11 @@ def run(ctx):
                 continue
             if c.outtext != ref.outtext:
                 fails.append(("alignment with %s differs from the serial (no-OpenMP) alignment" % c.tag, dict(case=c.describe(), serial=ref.outtext, got=c.outtext)))
+                continue
+            if c.events is None:
+                ctx.count("region_large_fragment_set")
+                if "-" in c.outtext:
+                    ctx.nontriv((c.key(), c.threads, c.tag))
                 continue
             why = validate_trace(c)
             ctx.count("traces_validated")
@@ -153,12 +176,13 @@ def run(ctx):
     if not ctx.quick and not fails:
         try:
             kvt = C.build_harness("tsan")
-            recs, t = ins[0]
-            c = Case(recs, t, threads=8, fmt="fasta")
-            sysrun.run_cases(kvt, [c], env={"TSAN_OPTIONS": "halt_on_error=0 ignore_noninstrumented_modules=1", "OMP_TOOL_LIBRARIES": "libarcher.so"})
-            ctx.count("tsan_runs")
-            if "WARNING: ThreadSanitizer: data race" in c.stderr:
-                fails.append(("ThreadSanitizer reports a data race", dict(case=c.describe(), report=c.stderr[-4000:])))
+            picks = [x for x in ins if 100 <= len(x[0]) < 400][:1] + [x for x in ins if max(len(s) for _, s in x[0]) >= 500][:1] + [x for x in ins if len(x[0]) < 100][:1]
+            for recs, t in picks:
+                c = Case(recs, t, threads=8, fmt="fasta")
+                sysrun.run_cases(kvt, [c], env={"TSAN_OPTIONS": "halt_on_error=0 ignore_noninstrumented_modules=1", "OMP_TOOL_LIBRARIES": "libarcher.so"})
+                ctx.count("tsan_runs")
+                if "WARNING: ThreadSanitizer: data race" in c.stderr:
+                    fails.append(("ThreadSanitizer reports a data race", dict(case=c.describe(), report=c.stderr[-4000:])))
         except C.BuildError as ex:
             ctx.notes.append("tsan build not available: %s" % str(ex)[:200])
     for why, rep in fails[:5]:
